@@ -1,7 +1,8 @@
 """C15 — Density box operations preserve the physical position of every voxel.
 
 Leg B: the real `tme.density.Density` of the worktree (adjust_box, pad, trim_box,
-minimum_enclosing_box, centered, resample, copy, empty) against the Lean model (Model/C15.lean),
+minimum_enclosing_box, centered, resample, copy, empty, to_pointcloud, center_of_mass, core_mask,
+to_memmap / to_numpy, the origin / sampling_rate setters, the box bookkeeping of rigid_transform) against the Lean model (Model/C15.lean),
 plus every clause of the property evaluated directly on the real outputs.
 
 Coordinates are dyadic (multiples of 1/Q) in the correspondence streams so that float arithmetic is
@@ -29,6 +30,12 @@ RULE = ("random 1-3-D densities (unique-id, blob and duplicate-valued data; floa
         "margins 0-8; resampling ratios incl. exact ties, both methods, rates in every form; histories of 2-12 mixed "
         "operations incl. default arguments after explicit ones and to_memmap / to_numpy in between; histories that contain "
         "resampling (bookkeeping); extents of hundreds to > 10^6 voxels and box / pad differences beyond 2^7, 2^8, 2^15, 2^16. "
+        "to_pointcloud (thresholds tied with a value or between two, default / keyword / numpy-scalar spellings) alone and after a "
+        "box operation with a pad value below, at or above the threshold; empty and the frame of rigid_transform (identity / flip / "
+        "quarter turn, order 1 and 3, whole-voxel shifts); center_of_mass (static or through an instance, cut-off None / omitted / tied / "
+        "between, signed integer and float data with negative values) alone and after adjust_box; core_mask on every binary 1-D pattern "
+        "and random mostly-filled 1-3-D arrays, alone and after a zero-padding box; random to_memmap / to_numpy sequences; the origin / "
+        "sampling_rate setters for every rank x argument length 0-4 as list / tuple / array / scalar. "
         "distinct = distinct (operation, shape, parameters) tuples; identity boxes / unchanged shapes are not counted")
 ASSUMPTIONS = [
     "adjust_box boxes have stop >= 0 on every axis for the extent / fill / conservation clauses (the docstring: only "
@@ -48,6 +55,12 @@ ASSUMPTIONS = [
     "extents beyond ~12 voxels per axis (up to > 10^6 voxels) and histories containing resampling by powers of two are checked "
     "by the property clauses on the real outputs (and the geometry model), not voxel by voxel against the Lean array model",
     "minimum_enclosing_box / centered: float dtypes and value maps that keep 0 at 0 (centre of mass and interpolation inside)",
+    "center_of_mass: signed integer and float dtypes, value maps without offset; the library divides in floating point, the model "
+    "returns the exact fraction - compared within 8*(voxels+4)*eps(float32)*(sum|w*i| + |com|*sum|w|)/|sum w|; a zero denominator "
+    "(nan / inf in the library) is not compared; an array without voxels and no cut-off raises ValueError in numpy's min (compared)",
+    "rigid_transform: only the frame (extents, origin, rate, fresh buffers) of the result for 2-D / 3-D float data; the interpolated "
+    "values are not modelled.  core_mask: ranks 1-3 (a rank-0 array would never leave the library's loop)",
+    "to_numpy on a numpy.memmap without a file (what memmap.copy() returns) raises TypeError inside the library: skipped",
 ]
 TRUSTED = ["C15: numpy.pad(mode='constant'), numpy basic slicing, scipy.ndimage.zoom output-shape rule are modelled and "
            "validated by correspondence only"]
@@ -1452,6 +1465,337 @@ def _gen_rehistory(rng, length):
 
 
 # ----------------------------------------------------------------------------------------------
+# deepen3: to_pointcloud, empty / rigid_transform bookkeeping, center_of_mass, to_memmap / to_numpy
+# ----------------------------------------------------------------------------------------------
+def _thr_real(case, thr, half):
+    rc = _real(case, thr, half=half)
+    if not half and np.dtype(case.get("dtype", "float32")).kind == "f":
+        rc = float(_fwd(case, [thr])[0])       # exactly the stored value of that id (a tie with the data)
+    return rc
+
+
+def _phys_units(d, pts):
+    """physical coordinates origin + index*rate of the points (k, ndim) in units of 1/Q"""
+    o = np.asarray(d.origin, dtype=np.float64).reshape(-1)
+    r = np.asarray(d.sampling_rate, dtype=np.float64).reshape(-1)
+    pts = np.asarray(pts, dtype=np.float64).reshape(-1, o.size)
+    return [_units(o + p * r) for p in pts]
+
+
+@_guard
+def case_cloud(ctx, case):
+    """to_pointcloud(threshold) before and after adjust_box(box, pad): the cloud moves with the box."""
+    d, raw = _mk(case)
+    thr, half = case["thr"], bool(case.get("half"))
+    rc = _thr_real(case, thr, half)
+    inp = {"kind": "cloud", **case}
+    logical = np.array(case["data"], dtype=np.int64).reshape(case["shape"])
+    old = np.array(raw).astype(raw.dtype.newbyteorder("=")) if raw.size else np.array(raw)
+    before = _state(d, case)
+    if case.get("default_thr"):
+        pc = d.to_pointcloud()
+    elif case.get("kwform"):
+        pc = d.to_pointcloud(threshold=rc)
+    else:
+        pc = d.to_pointcloud(np.float64(rc) if case.get("np_thr") else rc)
+    nd = len(case["shape"])
+    ok_shape = isinstance(pc, np.ndarray) and pc.ndim == 2 and pc.shape[0] == nd
+    impl = [[int(x) for x in p] for p in pc.T] if ok_shape else "shape:" + str(getattr(pc, "shape", None))
+    m = ctx.driver.call("c15.pointcloud", **_margs(case), thr=thr)
+    ctx.agree("to_pointcloud", inp, impl, m["cloud"] if isinstance(m, dict) else m)
+    want = [[int(x) for x in p] for p in np.argwhere(logical > thr)]
+    ctx.spec("to_pointcloud: exactly the voxels above the threshold, each once, one row per axis", inp, impl == want,
+             {"got": impl if isinstance(impl, str) else impl[:6], "want": want[:6]}, key="to_pointcloud:members")
+    ctx.spec("to_pointcloud: density and caller's array untouched, result is a new array", inp,
+             _state(d, case) == before and bool(np.array_equal(raw, old)) and not np.shares_memory(pc, d.data),
+             key="to_pointcloud:source")
+    if isinstance(m, dict) and ok_shape:
+        ctx.agree("to_pointcloud(physical coordinates)", inp, _phys_units(d, pc.T), m["phys"])
+    ctx.count("cloud:ndim=%d" % nd)
+    ctx.count("cloud:points=" + ("0" if not want else "all" if len(want) == logical.size else "some"))
+    ctx.count("cloud:thr:" + ("default" if case.get("default_thr") else "between" if half else "tie"))
+    ctx.count("layout:" + str(case.get("layout", "C")))
+    ctx.count("dtype:" + str(case.get("dtype")))
+    if case.get("box") is None or not ok_shape:
+        ctx.distinct(("cloud", case["shape"], case["data"], thr))
+        return impl
+    # the cloud after a box operation
+    box, padv = case["box"], case["pad"]
+    phys0 = _phys_units(d, pc.T)
+    vals0 = {tuple(p): old[tuple(p0)].item() for p, p0 in zip(phys0, pc.T)}
+    inbox = [tuple(p) for p, p0 in zip(phys0, pc.T) if all(b[0] <= int(x) < b[1] for x, b in zip(p0, box))]
+    try:
+        d.adjust_box(_box_arg(case, box), pad_kwargs={"constant_values": _real(case, padv)})
+    except Exception as e:  # noqa: BLE001
+        ctx.spec("adjust_box: returns", inp, False, type(e).__name__, key="adjust_box:raised")
+        return impl
+    pc2 = d.to_pointcloud(rc)
+    impl2 = [[int(x) for x in p] for p in pc2.T]
+    phys2 = _phys_units(d, pc2.T)
+    m2 = ctx.driver.call("c15.pointcloud", **_margs(case), thr=thr, box=box, pad=padv)
+    ctx.agree("to_pointcloud after adjust_box", inp, {"cloud": impl2, "phys": phys2}, m2)
+    quirk = any(b[1] < 0 for b in box)
+    new_data = np.asarray(d.data)
+    if padv <= thr:
+        ok = all(tuple(p) in vals0 and vals0[tuple(p)] == new_data[tuple(i)].item() for p, i in zip(phys2, impl2))
+        ctx.spec("to_pointcloud: after a box operation every point is a point of the old cloud, same value, same physical coordinate",
+                 inp, ok and len(set(map(tuple, phys2))) == len(phys2), {"new": phys2[:6]}, key="to_pointcloud:physical")
+    if not quirk:
+        have = set(map(tuple, phys2))
+        ctx.spec("to_pointcloud: no point of the old cloud inside the box is lost", inp, all(p in have for p in inbox),
+                 {"lost": [p for p in inbox if p not in have][:4]}, key="to_pointcloud:complete")
+    ctx.count("cloud:box:" + ("neg-stop" if quirk else "pad-above-thr" if padv > thr else "regular"))
+    ctx.distinct(("cloud", case["shape"], case["data"], thr, box, padv))
+    return impl2
+
+
+@_guard
+def case_empty(ctx, case):
+    """Density.empty and the box bookkeeping of rigid_transform (which fills `self.empty`)."""
+    inp = {"kind": "empty", **case}
+    d, raw = _mk(case, metadata={"k": [1, 2, 3]})
+    old = np.array(raw).astype(raw.dtype.newbyteorder("=")) if raw.size else np.array(raw)
+    before = _state(d, case)
+    e = d.empty
+    m = ctx.driver.call("c15.empty", **_margs(case))
+    ident = {k: v for k, v in case.items() if k not in ("scale", "offset")}      # zeros are zeros, whatever the value map
+    impl = _state(e, ident)
+    ctx.agree("empty", inp, impl, m)
+    ctx.spec("empty: same extents, origin and sampling rate (every index keeps its physical coordinate), all voxels zero", inp,
+             tuple(e.shape) == tuple(d.shape) and _units(e.origin) == _units(d.origin)
+             and _units(e.sampling_rate) == _units(d.sampling_rate) and not np.any(np.asarray(e.data))
+             and np.asarray(e.data).dtype == np.asarray(d.data).dtype, impl, key="empty:frame")
+    ctx.spec("empty: source untouched, result is a new object with new buffers", inp,
+             e is not d and not any(_shares(e, d)) and _state(d, case) == before and bool(np.array_equal(raw, old))
+             and d.metadata == {"k": [1, 2, 3]}, key="empty:source")
+    ctx.count("empty:ndim=%d" % len(case["shape"]))
+    nd = len(case["shape"])
+    if case.get("rigid") and nd in (2, 3) and np.dtype(case["dtype"]).kind == "f" and all(n >= 2 for n in case["shape"]):
+        rot = np.eye(nd)
+        k = case["rigid"]
+        if k == "flip":
+            rot[0, 0] = -1
+        elif k == "rot90":
+            rot[:2, :2] = [[0, -1], [1, 0]]
+        try:
+            tr = np.array(case.get("shift", [0] * nd), dtype=np.float64)
+            r = d.rigid_transform(rotation_matrix=rot, translation=tr, order=int(case.get("order", 1)),
+                                  use_geometric_center=bool(case.get("geometric", True)))
+        except Exception as ex:  # noqa: BLE001    (interpolation is outside C15: counted)
+            ctx.count("rigid:raised:" + type(ex).__name__)
+            return impl
+        got = {"shape": [int(x) for x in r.shape], "origin": _units(r.origin), "rate": _units(r.sampling_rate)}
+        ctx.agree("rigid_transform(frame)", inp, got, {k2: m[k2] for k2 in ("shape", "origin", "rate")} if isinstance(m, dict) else m)
+        ctx.spec("rigid_transform: extents, origin and sampling rate are those of the source", inp,
+                 got == {k2: before[k2] for k2 in ("shape", "origin", "rate")}, got, key="rigid_transform:frame")
+        ctx.spec("rigid_transform: source untouched, result is a new object with new buffers", inp,
+                 r is not d and not any(_shares(r, d)) and _state(d, case) == before and bool(np.array_equal(raw, old)),
+                 key="rigid_transform:source")
+        ctx.count("rigid:" + k)
+    ctx.distinct(("empty", case["shape"], case.get("dtype"), case.get("layout"), case.get("rigid")))
+    return impl
+
+
+@_guard
+def case_com(ctx, case):
+    """Density.center_of_mass (static) against the exact fractions of the model; covariance under adjust_box."""
+    from tme import Density
+    inp = {"kind": "com", **case}
+    d, raw = _mk(case)
+    cutoff = case.get("cutoff")
+    half = bool(case.get("half"))
+    rc = None if cutoff is None else _thr_real(case, cutoff, half)
+    logical = np.array(case["data"], dtype=np.int64).reshape(case["shape"])
+    old = np.array(raw).astype(raw.dtype.newbyteorder("=")) if raw.size else np.array(raw)
+    eps = float(np.finfo(np.float32).eps)
+
+    def grid(w, ax):
+        return np.arange(w.shape[ax]).reshape([-1 if t == ax else 1 for t in range(w.ndim)])
+
+    def exact(ids):
+        w = ids if cutoff is None else np.where(ids > cutoff, ids, 0)
+        nums = [int((w * grid(w, ax)).sum()) for ax in range(w.ndim)]
+        absw = [int((np.abs(w) * grid(w, ax)).sum()) for ax in range(w.ndim)]
+        return nums, int(w.sum()), absw, int(np.abs(w).sum())
+
+    def close(real, nums, den, absw, sumabs, n):
+        real = np.asarray(real, dtype=np.float64).reshape(-1)
+        if real.size != len(nums):
+            return False
+        for x, num, aw in zip(real, nums, absw):
+            want = num / den
+            tol = 8 * (n + 4) * eps * (aw / abs(den) + abs(want) * sumabs / abs(den)) + 1e-30
+            if not (np.isfinite(x) and abs(x - want) <= tol):
+                return False
+        return True
+
+    def one(dd, tag, box=None):
+        arr = dd.data
+        try:
+            if case.get("via_instance"):
+                real = dd.center_of_mass(arr, rc)
+            elif rc is None and case.get("omit_cutoff"):
+                real = Density.center_of_mass(arr)
+            else:
+                real = Density.center_of_mass(arr, rc)
+        except ValueError:
+            real = "err:ValueError"
+        args = dict(_margs(case), cutoff=cutoff)
+        if box is not None:
+            args.update(box=box, pad=0)
+        m = ctx.driver.call("c15.com", **args)
+        if isinstance(real, str) or isinstance(m, str):       # no voxels and no cut-off: numpy's min raises
+            ctx.agree(f"center_of_mass{tag}(raises)", inp, real if isinstance(real, str) else "returns", m if isinstance(m, str) else "returns")
+            ctx.count("com:raises")
+            return None
+        ids = np.round(np.asarray(_inv(case, arr))).astype(np.int64)
+        nums, den, absw, sumabs = exact(ids)
+        ok_model = isinstance(m, dict) and m["num"] == nums and m["den"] == den
+        ctx.agree(f"center_of_mass{tag}: the model's fractions are the exact sums over the real array", inp,
+                  {"num": nums, "den": den}, {"num": m["num"], "den": m["den"]} if isinstance(m, dict) else m)
+        if den == 0 or not ok_model:
+            ctx.count("com:den=0")
+            return None
+        ok_close = close(real, nums, den, absw, sumabs, arr.size)
+        ctx.agree(f"center_of_mass{tag} (within rounding of the exact fraction)", inp,
+                  "close" if ok_close else [float(x) for x in np.asarray(real).reshape(-1)], "close")
+        # the clause itself, from the values of the real array only (no Lean model involved)
+        ctx.spec("center_of_mass: sum(w*i)/sum(w) with w = value where value > cut-off, else 0 (all values without a cut-off)", inp,
+                 ok_close, {"got": [float(x) for x in np.asarray(real).reshape(-1)], "num": nums, "den": den}, key="center_of_mass:value")
+        return m
+
+    m0 = one(d, "")
+    ctx.spec("center_of_mass: the array is left as it was", inp, bool(np.array_equal(raw, old)), key="center_of_mass:source")
+    ctx.count("com:cutoff:" + ("none" if cutoff is None else "between" if half else "tie"))
+    ctx.count("com:ndim=%d" % len(case["shape"]))
+    ctx.count("dtype:" + str(case.get("dtype")))
+    if case.get("box") is not None and m0 is not None:
+        box = case["box"]
+        d.adjust_box(_box_arg(case, box))               # library default pad value 0: weighs nothing
+        m1 = one(d, " after adjust_box", box=box)
+        w = logical if cutoff is None else np.where(logical > cutoff, logical, 0)
+        inside = all(all(b[0] <= int(x) < b[1] for x, b in zip(p, box)) for p in np.argwhere(w != 0))
+        if m1 is not None and inside and all(b[1] >= 0 for b in box):
+            # property clause, in exact integers: den * (origin' + com' * rate) == den * (origin + com * rate) on every axis
+            ok = m1["den"] == m0["den"] and all(
+                o1 * m1["den"] + n1 * r1 == o0 * m0["den"] + n0 * r0 and r1 == r0
+                for o1, n1, r1, o0, n0, r0 in zip(_units(d.origin), m1["num"], _units(d.sampling_rate), m0["origin"], m0["num"], m0["rate"]))
+            ctx.spec("center_of_mass: a box operation that keeps every weighing voxel leaves the physical centre of mass where it was",
+                     inp, ok, {"before": m0, "after": m1, "origin": _units(d.origin)}, key="center_of_mass:physical")
+            ctx.count("com:box:covariant")
+        else:
+            ctx.count("com:box:cuts-mass")
+    ctx.distinct(("com", case["shape"], case["data"], cutoff, case.get("box")))
+
+
+@_guard
+def case_remap(ctx, case):
+    """to_memmap / to_numpy: only the place where the data live changes."""
+    inp = {"kind": "remap", **case}
+    d, raw = _mk(case, metadata={"k": [1, 2, 3]})
+    if d.data.size == 0:
+        return
+    before = _state(d, case)
+
+    class _Old:
+        pass
+
+    def step(name):
+        was_mm = isinstance(d.data, np.memmap)
+        if name == "to_numpy" and was_mm and getattr(d.data, "filename", None) is None:
+            return                                     # (numpy.memmap without a file: outside C15, see apply_real)
+        o = _Old()
+        o.data, o.origin, o.sampling_rate, o.metadata = d.data, d.origin, d.sampling_rate, d.metadata
+        ret = getattr(d, name)()
+        if name == "to_memmap" and not was_mm and isinstance(d.data, np.memmap):
+            _FILES.append(str(d.data.filename))
+            _close_leaked(d.data.filename)
+        noop = was_mm if name == "to_memmap" else not was_mm
+        same_data = d.data is o.data
+        if not same_data and not was_mm and not isinstance(d.data, np.memmap):
+            same_data = bool(np.shares_memory(d.data, o.data))
+        sh = [same_data, d.origin is o.origin, d.sampling_rate is o.sampling_rate, d.metadata is o.metadata]
+        ctx.agree(f"alias({name}{'_noop' if noop else ''})", inp, sh,
+                  ctx.driver.call("c15.alias", which=name + ("_noop" if noop else "")))
+        ctx.spec(f"{name}: returns nothing; shape, values, origin, sampling rate and metadata are what they were", inp,
+                 ret is None and _state(d, case) == before and d.metadata == {"k": [1, 2, 3]}
+                 and isinstance(d.data, np.memmap) == (name == "to_memmap"), key=f"{name}:content")
+        ctx.count(f"remap:{name}:" + ("noop" if noop else "moved"))
+
+    for name in case.get("seq", ["to_memmap", "to_memmap", "to_numpy", "to_numpy"]):
+        step(name)
+    ctx.distinct(("remap", case["shape"], case.get("dtype"), case.get("layout"), tuple(case.get("seq", []))))
+
+
+@_guard
+def case_core(ctx, case):
+    """Density.core_mask(): iterated binary erosion; the mask is aligned with the data and moves with a zero-padding box."""
+    inp = {"kind": "core", **case}
+    d, raw = _mk(case)
+    old = np.array(raw).astype(raw.dtype.newbyteorder("=")) if raw.size else np.array(raw)
+    before = _state(d, case)
+    logical = np.array(case["data"], dtype=np.int64).reshape(case["shape"])
+    cm = d.core_mask()
+    impl = {"shape": [int(x) for x in cm.shape], "data": _ints(cm)}
+    m = ctx.driver.call("c15.coreMask", **_margs(case))
+    ctx.agree("core_mask", inp, impl, m)
+    cmi = np.asarray(cm)
+    ctx.spec("core_mask: has the extents of the data and is positive exactly where the data are", inp,
+             tuple(cmi.shape) == tuple(logical.shape) and bool(np.array_equal(cmi > 0, logical > 0)), impl, key="core_mask:support")
+    ctx.spec("core_mask: density and caller's array untouched, result is a new array", inp,
+             _state(d, case) == before and bool(np.array_equal(raw, old)) and not np.shares_memory(cm, d.data), key="core_mask:source")
+    ctx.count("core:ndim=%d" % len(case["shape"]))
+    ctx.count("core:max=%d" % min(int(cmi.max(initial=0)), 4))
+    if case.get("box") is not None:
+        box = case["box"]
+        d.adjust_box(_box_arg(case, box))               # zero padding
+        cm2 = np.asarray(d.core_mask())
+        m2 = ctx.driver.call("c15.coreMask", **_margs(case), box=box, pad=0)
+        ctx.agree("core_mask after adjust_box", inp, {"shape": [int(x) for x in cm2.shape], "data": _ints(cm2)}, m2)
+        if all(b[0] <= 0 and b[1] >= n for b, n in zip(box, case["shape"])):
+            # a box that only adds zeros: the mask is the old mask at the same physical coordinates, zero elsewhere
+            sl = tuple(slice(-b[0], -b[0] + n) for b, n in zip(box, case["shape"]))
+            rest = cm2.copy(); rest[sl] = 0
+            ctx.spec("core_mask: zero padding moves the mask with the data (same value at the same physical coordinate)", inp,
+                     bool(np.array_equal(cm2[sl], cmi)) and not np.any(rest), key="core_mask:physical")
+            ctx.count("core:box:extend")
+    ctx.distinct(("core", case["shape"], case["data"], case.get("box")))
+    return impl
+
+
+@_guard
+def case_setter(ctx, case):
+    """the origin / sampling_rate setters of an existing object: np.repeat and no size test (the constructor has one)."""
+    from tme import Density
+    nd, xs = case["ndim"], case["xs"]          # xs in units of 1/Q
+    inp = {"kind": "setter", **case}
+    vals = [x / Q for x in xs]
+    m = ctx.driver.call("c15.setter", ndim=nd, xs=xs)
+    ctor = ctx.driver.call("c15.broadcast", ndim=nd, xs=xs)
+    for which in ("origin", "sampling_rate"):
+        d = Density(np.zeros((2,) * nd, np.float32), origin=[1.0] * nd, sampling_rate=[2.0] * nd)
+        arg = {"list": list(vals), "tuple": tuple(vals), "array": np.array(vals, dtype=np.float64)}[case.get("form", "list")]
+        if case.get("scalar") and len(vals) == 1:
+            arg = vals[0]
+        try:
+            setattr(d, which, arg)
+            r = _units(getattr(d, which))
+        except ZeroDivisionError:
+            r = "err:ZeroDivisionError"
+        except Exception as e:  # noqa: BLE001
+            r = "raised:" + type(e).__name__
+        ctx.agree(f"setter ({which})", inp, r, m)
+        if not isinstance(ctor, str):       # whatever the constructor accepts, the setter stores the same per-axis values
+            ctx.spec("setters: an argument the constructor accepts is stored as the constructor stores it (one entry per axis)", inp,
+                     r == ctor and len(r) == nd, {which: r, "constructor": ctor}, key="setter:value")
+        other = "sampling_rate" if which == "origin" else "origin"
+        ctx.spec("setters: the other per-axis attribute and the data are left alone", inp,
+                 _units(getattr(d, other)) == [Q * (2 if which == "origin" else 1)] * nd and d.shape == (2,) * nd, key="setter:other")
+    ctx.count("setter:" + ("refused" if isinstance(m, str) else "consistent" if len(m) == nd else "stored-with-wrong-length"))
+    ctx.distinct(("setter", nd, len(xs), case.get("form"), bool(case.get("scalar"))))
+
+
+# ----------------------------------------------------------------------------------------------
 def _obligations(ctx):
     """Constants the model / history ops assume, read from the source on every run."""
     from tme import Density
@@ -1716,6 +2060,125 @@ def run(ctx):
     for i in range(ctx.budget(250, 2500)):
         case_rehistory(ctx, _gen_rehistory(rng, int(rng.integers(2, 7))))
 
+    # ---- deepen3: to_pointcloud (alone and after a box operation)
+    rng = ctx.rng("cloud")
+    for n in range(1, ctx.budget(5, 7) + 1):           # every binary 1-D pattern x a few boxes
+        for bits in itertools.product([0, 1], repeat=n):
+            for bi, box in enumerate(([[-1, n + 1]], [[1, n]], [[0, max(n - 1, 0)]], None)):
+                case = _vary({"shape": [n], "data": list(bits), "mode": "dup", "origin": [-13], "rate": [5], "dtype": "float32",
+                              "thr": 0, "half": bool((n + bi) % 2), "box": box, "pad": 0}, n + bi)
+                case_cloud(ctx, case)
+    for i in range(ctx.budget(900, 8000)):
+        case = gen_density(rng)
+        n = len(case["data"])
+        if case["mode"] == "dup":
+            case["thr"] = int(rng.integers(-3, 5))
+        elif case["mode"] == "blob":
+            case["thr"] = int(rng.choice([0, 0, 1, max(1, n // 2)]))
+        else:
+            case["thr"] = int(rng.integers(0, n + 1))
+        case["half"] = bool(rng.random() < 0.4)
+        if case.get("dtype") in UDTYPES:
+            case["half"] = False
+            case["thr"] = max(case["thr"], 0)
+        case["default_thr"] = bool(case["thr"] == 0 and not case["half"] and not case.get("offset") and rng.random() < 0.5)
+        case["kwform"] = bool(rng.random() < 0.3)
+        case["np_thr"] = bool(rng.random() < 0.3)
+        if rng.random() < 0.7:
+            case["box"] = gen_box(rng, case["shape"], quirk=(i % 15 == 0))
+            case["boxform"] = str(rng.choice(["tuple", "list", "np64"]))
+            lo = 0 if case.get("dtype") in UDTYPES else -5
+            case["pad"] = int(rng.integers(lo, case["thr"] + 1)) if case["thr"] >= lo and rng.random() < 0.85 else case["thr"] + 1
+            if case.get("dtype") in UDTYPES:
+                case["pad"] = min(max(case["pad"], 0), 1)
+        else:
+            case["box"] = None
+            case["pad"] = 0
+        case_cloud(ctx, case)
+
+    # ---- deepen3: empty / rigid_transform bookkeeping
+    rng = ctx.rng("empty")
+    for i in range(ctx.budget(300, 2500)):
+        case = gen_density(rng)
+        if i % 3 == 0:
+            case = gen_density(rng, nd=int(rng.choice([2, 3])), dtypes=["float32", "float64"])
+            case["shape"] = [max(2, n) for n in case["shape"]]
+            nvox = int(np.prod(case["shape"]))
+            case["data"] = [int(x) for x in rng.integers(0, 9, size=nvox)]
+            case["mode"] = "dup"
+            case.pop("scale", None); case.pop("offset", None)
+            case["rigid"] = str(rng.choice(["identity", "flip", "rot90"]))
+            case["order"] = int(rng.choice([1, 1, 3]))
+            case["geometric"] = bool(rng.random() < 0.7)
+            case["shift"] = [int(x) for x in rng.integers(-1, 2, size=len(case["shape"]))]
+        case_empty(ctx, case)
+
+    # ---- deepen3: center_of_mass (exact fractions; covariance under adjust_box)
+    rng = ctx.rng("com")
+    for i in range(ctx.budget(900, 8000)):
+        case = gen_density(rng, mode=str(rng.choice(["blob", "dup", "perm"], p=[0.5, 0.35, 0.15])),
+                           dtypes=["float32", "float64", "int16", "int32", "int64"])
+        if case.get("offset"):                       # the centre of mass is invariant under a scale, not under an offset
+            case.pop("scale", None); case.pop("offset", None)
+        n = len(case["data"])
+        if rng.random() < 0.35:
+            case["cutoff"] = None
+        elif case["mode"] == "dup":
+            case["cutoff"] = int(rng.integers(-3, 4))
+        else:
+            case["cutoff"] = int(rng.choice([0, 0, 1, 2, max(1, n // 3)]))
+        case["half"] = bool(case["cutoff"] is not None and rng.random() < 0.4)
+        case["omit_cutoff"] = bool(rng.random() < 0.5)
+        case["via_instance"] = bool(rng.random() < 0.2)
+        if rng.random() < 0.65:
+            if rng.random() < 0.5:                    # a box that keeps everything (extend / identity): always covariant
+                case["box"] = [[-int(rng.integers(0, 4)), int(m + rng.integers(0, 4))] for m in case["shape"]]
+            else:
+                case["box"] = gen_box(rng, case["shape"])
+            case["boxform"] = str(rng.choice(["tuple", "list", "np64"]))
+        else:
+            case["box"] = None
+        case_com(ctx, case)
+
+    # ---- deepen3: to_memmap / to_numpy
+    rng = ctx.rng("remap")
+    for i in range(ctx.budget(80, 600)):
+        case = gen_density(rng)
+        k = int(rng.integers(2, 6))
+        case["seq"] = [str(x) for x in rng.choice(["to_memmap", "to_numpy"], size=k)]
+        case_remap(ctx, case)
+
+    # ---- deepen3: core_mask (iterated erosion)
+    rng = ctx.rng("core")
+    for n in range(1, ctx.budget(6, 8) + 1):           # every binary 1-D pattern
+        for bits in itertools.product([0, 1], repeat=n):
+            case_core(ctx, _vary({"shape": [n], "data": list(bits), "mode": "dup", "origin": [-13], "rate": [5], "dtype": "float32",
+                                  "box": [[-(n % 3), n + 1]] if sum(bits) % 2 else None}, n + sum(bits), maps=False))
+    for i in range(ctx.budget(500, 4000)):
+        case = gen_density(rng, maxext={1: 12, 2: 7, 3: 5}[1 + i % 3], nd=1 + i % 3, maps=False)
+        nvox = len(case["data"])
+        lo = 0 if case.get("dtype") in UDTYPES else -2
+        hi = 2 if case.get("dtype") == "bool" else 6
+        vals = rng.integers(lo, hi, size=nvox)
+        dens = float(rng.choice([0.5, 0.8, 0.95, 1.0]))      # mostly filled, so that several erosion rounds happen
+        vals = np.where(rng.random(nvox) < dens, np.maximum(vals, 1), np.minimum(vals, 0))
+        case["data"] = [int(x) for x in vals]
+        case["mode"] = "dup"
+        if rng.random() < 0.5:
+            case["box"] = [[-int(rng.integers(0, 3)), int(m + rng.integers(0, 3))] for m in case["shape"]]
+        elif rng.random() < 0.3:
+            case["box"] = gen_box(rng, case["shape"])
+        else:
+            case["box"] = None
+        case_core(ctx, case)
+
+    # ---- deepen3: the origin / sampling_rate setters of an existing object (every rank x every length 0-4 x forms)
+    for nd in (1, 2, 3):
+        for k in range(0, 5):
+            for form in ("list", "tuple", "array"):
+                case_setter(ctx, {"ndim": nd, "xs": [8 * (i + 1) - 24 for i in range(k)], "form": form})
+                case_setter(ctx, {"ndim": nd, "xs": [4 * (k - i) + 2 for i in range(k)], "form": form, "scalar": True})
+
 
 def _dispatch(ctx, inp):
     k = inp.get("kind")
@@ -1742,6 +2205,18 @@ def _dispatch(ctx, inp):
         case_big(ctx, case)
     elif k == "rehistory":
         case_rehistory(ctx, case)
+    elif k == "cloud":
+        case_cloud(ctx, case)
+    elif k == "empty":
+        case_empty(ctx, case)
+    elif k == "com":
+        case_com(ctx, case)
+    elif k == "remap":
+        case_remap(ctx, case)
+    elif k == "core":
+        case_core(ctx, case)
+    elif k == "setter":
+        case_setter(ctx, case)
     else:
         ctx.note("replay: unknown kind %r" % (k,))
 
@@ -1795,3 +2270,18 @@ def search(ctx):
         case_big(ctx, _gen_big(rng))
     for i in range(400):
         case_rehistory(ctx, _gen_rehistory(rng, int(rng.integers(2, 9))))
+    # deepen3 operations: exhaustive small binary patterns (2-D) and random cases
+    for bits in itertools.product([0, 1], repeat=6):
+        for shape in ([2, 3], [3, 2], [6]):
+            base = {"shape": shape, "data": list(bits), "mode": "dup", "origin": [3, -2][:len(shape)], "rate": [5, 2][:len(shape)],
+                    "dtype": "float64"}
+            case_cloud(ctx, {**base, "thr": 0, "box": [[-1, n + 1] for n in shape], "pad": 0})
+            case_com(ctx, {**base, "cutoff": 0, "box": [[-1, n + 2] for n in shape]})
+            case_com(ctx, {**base, "cutoff": None, "box": None})
+            case_core(ctx, {**base, "box": [[-1, n + 1] for n in shape]})
+            case_empty(ctx, dict(base))
+    for i in range(300):
+        case = gen_density(rng, dtypes=["float32", "float64", "int32"], maps=False)
+        case_cloud(ctx, {**case, "thr": int(rng.integers(-1, 4)), "box": gen_box(rng, case["shape"]), "pad": -5})
+        case_com(ctx, {**case, "cutoff": int(rng.integers(-2, 4)), "box": None})
+        case_remap(ctx, {**case, "seq": ["to_memmap", "to_numpy", "to_numpy", "to_memmap", "to_memmap"]})
